@@ -68,6 +68,8 @@ def _param_mentions(ctx, f, e, under_values=False, depth=0, out=None):
     if isinstance(e, ast.Call) and isinstance(e.func, ast.Attribute) and \
             e.func.attr == "values" and not e.args:
         return out  # labels (keys) are dropped
+    if isinstance(e, ast.Call) and dotted(e.func) in ("len", "int", "bool", "sum", "min", "max"):
+        return out  # a number: no label object reaches the pickled structure through it
     for ch in ast.iter_child_nodes(e):
         if isinstance(ch, (ast.expr, ast.keyword, ast.comprehension)):
             if isinstance(ch, ast.keyword):
@@ -166,6 +168,39 @@ def rule_fpcov(ctx):
                         "contractions differing only there share a cache entry")
         else:
             r.ok(key, f.loc, "depends on inputs, output and size_dict")
+        # (F23) the fingerprint determines the *number* of tensors: an element-per-input structure does, a
+        # structure built per index (incidence lists) does not — a tensor without indices leaves no trace in it,
+        # so `ab,bc` and `ab,bc,` (plus a scalar) would share a record and the stored path would be incomplete
+        key2 = ctx.key(f, "C14-FPCOV", "count")
+        dumps = [n for n in walk_local(f.node) if isinstance(n, ast.Call) and (dotted(n.func) or "").endswith("dumps") and n.args]
+        if not dumps:
+            r.exempt(key2, f.loc, "no pickled structure recognised: tensor count not decided")
+            continue
+        struct = dumps[0].args[0]
+        per_input = False
+        has_len = False
+        for x in ast.walk(struct):
+            if isinstance(x, ast.Call) and dotted(x.func) == "len" and x.args and dotted(x.args[0]) == "inputs":
+                has_len = True
+            if isinstance(x, ast.Call) and dotted(x.func) in ("tuple", "list") and x.args:
+                a0 = x.args[0]
+                if isinstance(a0, ast.Call) and dotted(a0.func) == "map" and len(a0.args) == 2 and dotted(a0.args[1]) == "inputs":
+                    per_input = True
+                if isinstance(a0, (ast.GeneratorExp, ast.ListComp)) and dotted(a0.generators[0].iter) == "inputs" \
+                        and not a0.generators[0].ifs and len(a0.generators) == 1:
+                    per_input = True
+        # locals of the structure that are themselves len(inputs)
+        la = ctx.r.local_assignments(f)
+        for x in ast.walk(struct):
+            if isinstance(x, ast.Name) and any(C.unparse(v) == "len(inputs)" for v in la.get(x.id, [])):
+                has_len = True
+        if per_input or has_len:
+            r.ok(key2, C.loc(f, dumps[0]), "the hashed structure has one element per tensor" if per_input
+                 else "the hashed structure contains the number of tensors")
+        else:
+            r.violation(key2, C.loc(f, dumps[0]), "the hashed structure is built per *index* and does not contain the number of "
+                        "tensors: a contraction with an extra index-free tensor (a scalar factor) has the same fingerprint, so "
+                        "the path recorded for the smaller contraction is returned for it — an incomplete path")
     return r
 
 
@@ -245,6 +280,13 @@ def _policy_names(ctx, f):
                 for ifn, t in C.enclosing_ifs(f, n):
                     if t and isinstance(ifn.test, ast.Name):
                         SR = ifn.test.id
+    if SR is None:
+        # the flag is the second element handed back (`return con, <flag>`), whatever guards the run
+        for n in walk_local(f.node):
+            if isinstance(n, ast.Return) and isinstance(n.value, ast.Tuple) and len(n.value.elts) == 2:
+                others = [e.id for e in n.value.elts if isinstance(e, ast.Name) and e.id != CON]
+                if len(others) == 1:
+                    SR = others[0]
     return K, M, CON, SR, hq
 
 
